@@ -1098,6 +1098,12 @@ def result_dtype(op, d1, d2):
 def pure_arith(I, op, x, y):
     """arithmetic without path effects when called under a quantifier"""
     ctx = I.ctx
+    if ctx.in_quant and op in ("FloorDiv", "Mod") and (is_sym(x) or is_sym(y)) and \
+            (is_reallike(x) and not is_intlike(x) or is_reallike(y) and not is_intlike(y)):
+        # real floor division / modulo (positive divisor assumed, as for the integer case below): x = y * floor(x / y) + r
+        xr, yr = ops.as_real(x), ops.as_real(y)
+        q = z3.ToReal(z3.ToInt(xr / yr))
+        return q if op == "FloorDiv" else xr - yr * q
     if ctx.in_quant and op in ("FloorDiv", "Mod") and (is_sym(x) or is_sym(y)):
         x3, y3 = to_z3(to_int_term(x)), to_z3(to_int_term(y))
         if not is_sym(y) and y > 0:
@@ -1616,6 +1622,15 @@ def sk_check_random_state(I, args, kwargs):
     USED.add("sklearn check_random_state(seed): opaque stateful generator, draws not modelled")
     o = Opaque("RandomState", prov=("check_random_state", args[0] if args else None))
     o.is_rng = True
+
+    def draw(kind):
+        def m(I2, recv, a, kw):
+            USED.add("RandomState draws: arbitrary values (not modelled)")
+            if kw.get("size") is not None or (kind == "randint" and len(a) > 2) or (kind == "choice" and len(a) > 1):
+                raise Undecided("array-valued random draw")
+            return I2.ctx.fresh_int("draw") if kind in ("randint", "choice") else I2.ctx.fresh_real("draw")
+        return m
+    o.opaque_methods = {k_: draw(k_) for k_ in ("randint", "uniform", "random", "choice", "rand", "normal")}
     return o
 
 
@@ -1661,3 +1676,18 @@ def _math_sqrt(I, args, kwargs):
 def sk_partition_estimators(I, args, kwargs):
     USED.add("sklearn _partition_estimators(n_estimators, n_jobs): (number of jobs, per-job counts, starts) -- scheduling only, opaque")
     return SList([Opaque("n_jobs (effective)"), Opaque("n_estimators per job"), Opaque("starts")], "tuple")
+
+
+@lib("functools.partial")
+def _functools_partial(I, args, kwargs):
+    """functools.partial(f, *a, **kw): calling it calls f with the stored arguments first / the stored keywords as defaults"""
+    f, pre = args[0], list(args[1:])
+    pkw = dict(kwargs)
+
+    def call(I2, a, kw):
+        merged = dict(pkw)
+        merged.update(kw)
+        return I2.call(f, pre + list(a), merged)
+    call._pyvc_native = True
+    call.partial_of = (f, pre, pkw)
+    return call
